@@ -137,20 +137,6 @@ func CheckC07(r *Run) int {
 	r.Native = nat
 	var bads []scopeOutcome
 	total, acceptedN := 0, 0
-	names := []byte(nameAlphabet)
-	// expected(name bytes) as a term: OR over the concrete name pairs for which the program is legal
-	expectTerm := func(c *gosym.Ctx, n1, n2 *sym.Term, legal func(a, b byte) bool) *sym.Term {
-		B := c.B
-		acc := B.False
-		for _, a := range names {
-			for _, b := range names {
-				if legal(a, b) {
-					acc = B.Or(acc, B.And(B.Eq(n1, B.BV(uint64(a), 8)), B.Eq(n2, B.BV(uint64(b), 8))))
-				}
-			}
-		}
-		return acc
-	}
 	run := func(c *gosym.Ctx, src gosym.Str, expected *sym.Term, desc string) scopeOutcome {
 		c.FS.AddFile("/work/main.tsh", src)
 		var hasErr bool
@@ -189,52 +175,100 @@ func CheckC07(r *Run) int {
 			bads = append(bads, o)
 		}
 	}}
-	// Harness A: definition site x use site, two symbolic one-byte names
+	deep := r.Tier != "quick"
+	// twoNames: names of one symbolic byte, in the thorough tier optionally followed by a second symbolic byte over "xy"
+	// (so that one name can be a proper prefix of the other). It returns the name ropes and a function that turns a
+	// legality predicate over concrete names into the expected-verdict term.
+	twoNames := func(c *gosym.Ctx, alpha1, alpha2 string) (gosym.Str, gosym.Str, func(legal func(a, b string) bool) *sym.Term) {
+		B := c.B
+		n1 := B.ByteVar("n1", alpha1)
+		n2 := B.ByteVar("n2", alpha2)
+		c.S.Declare(n1)
+		c.S.Declare(n2)
+		s1, s2 := gosym.ByteStr(n1), gosym.ByteStr(n2)
+		var m1, m2 *sym.Term
+		if deep && c.Fork() {
+			m1 = B.ByteVar("m1", "xy")
+			c.S.Declare(m1)
+			s1 = gosym.Concat(s1, gosym.ByteStr(m1))
+		}
+		if deep && c.Fork() {
+			m2 = B.ByteVar("m2", "xy")
+			c.S.Declare(m2)
+			s2 = gosym.Concat(s2, gosym.ByteStr(m2))
+		}
+		sufs := func(m *sym.Term) []string {
+			if m == nil {
+				return []string{""}
+			}
+			return []string{"x", "y"}
+		}
+		return s1, s2, func(legal func(a, b string) bool) *sym.Term {
+			acc := B.False
+			for _, a := range []byte(alpha1) {
+				for _, as := range sufs(m1) {
+					for _, b := range []byte(alpha2) {
+						for _, bs := range sufs(m2) {
+							if !legal(string(a)+as, string(b)+bs) {
+								continue
+							}
+							t := B.And(B.Eq(n1, B.BV(uint64(a), 8)), B.Eq(n2, B.BV(uint64(b), 8)))
+							if as != "" {
+								t = B.And(t, B.Eq(m1, B.BV(uint64(as[0]), 8)))
+							}
+							if bs != "" {
+								t = B.And(t, B.Eq(m2, B.BV(uint64(bs[0]), 8)))
+							}
+							acc = B.Or(acc, t)
+						}
+					}
+				}
+			}
+			return acc
+		}
+	}
+	implicitName := func(name string, slot int) bool { return len(name) == 1 && implicitVisible(name[0], slot) }
+	// Harness A: definition site x use site, two symbolic names
 	st := r.Eng.Explore(func(c *gosym.Ctx) interface{} {
 		d := c.Choose("def", 0, nSlots-1)
 		u := c.Choose("use", 0, nSlots-1)
 		if u == d {
 			u = (d + 1) % nSlots
 		}
-		n1 := c.B.ByteVar("n1", "ab") // definitions never use the names of header variables (those rules are fixed programs below)
-		n2 := c.B.ByteVar("n2", nameAlphabet)
-		c.S.Declare(n1)
-		c.S.Declare(n2)
+		// definitions never use the names of header variables (those rules are fixed programs below)
+		s1, s2, expect := twoNames(c, "ab", nameAlphabet)
 		fill := map[int]gosym.Str{
-			d: gosym.Concat(gosym.ByteStr(n1), gosym.Conc(" := 5")),
-			u: gosym.Concat(gosym.Conc("print("), gosym.ByteStr(n2), gosym.Conc(")")),
+			d: gosym.Concat(s1, gosym.Conc(" := 5")),
+			u: gosym.Concat(gosym.Conc("print("), s2, gosym.Conc(")")),
 		}
-		legal := func(a, b byte) bool {
-			if implicitVisible(a, d) {
+		legal := func(a, b string) bool {
+			if implicitName(a, d) {
 				return false // redefinition of a header variable / parameter
 			}
 			if a == b && visible(d, u) {
 				return true
 			}
-			return implicitVisible(b, u)
+			return implicitName(b, u)
 		}
-		return run(c, fillSlots(fill), expectTerm(c, n1, n2, legal), fmt.Sprintf("def@%d use@%d", d, u))
+		return run(c, fillSlots(fill), expect(legal), fmt.Sprintf("def@%d use@%d", d, u))
 	}, opts)
-	r.Absorb("H_C07_def_use", st, fmt.Sprintf("every (definition slot, use slot) pair of a %d-slot block template (nested ifs, for header, function, switch cases, range); both names are one symbolic byte over %q", nSlots, nameAlphabet))
+	r.Absorb("H_C07_def_use", st, fmt.Sprintf("every (definition slot, use slot) pair of a %d-slot block template (nested ifs, for header, function, switch cases, range); both names are one symbolic byte over %q, in the thorough tier optionally followed by a second symbolic byte over \"xy\"", nSlots, nameAlphabet))
 	// Harness B: two definitions
 	st = r.Eng.Explore(func(c *gosym.Ctx) interface{} {
 		d := c.Choose("def1", 0, nSlots-2)
 		e := c.Choose("def2", d+1, nSlots-1)
-		n1 := c.B.ByteVar("n1", "ab")
-		n2 := c.B.ByteVar("n2", "ab")
-		c.S.Declare(n1)
-		c.S.Declare(n2)
+		s1, s2, expect := twoNames(c, "ab", "ab")
 		fill := map[int]gosym.Str{
-			d: gosym.Concat(gosym.ByteStr(n1), gosym.Conc(" := 5")),
-			e: gosym.Concat(gosym.Conc("var "), gosym.ByteStr(n2), gosym.Conc(" int = 6")),
+			d: gosym.Concat(s1, gosym.Conc(" := 5")),
+			e: gosym.Concat(gosym.Conc("var "), s2, gosym.Conc(" int = 6")),
 		}
-		legal := func(a, b byte) bool {
-			if implicitVisible(a, d) || implicitVisible(b, e) {
+		legal := func(a, b string) bool {
+			if implicitName(a, d) || implicitName(b, e) {
 				return false
 			}
 			return !(a == b && visible(d, e))
 		}
-		return run(c, fillSlots(fill), expectTerm(c, n1, n2, legal), fmt.Sprintf("def@%d def@%d", d, e))
+		return run(c, fillSlots(fill), expect(legal), fmt.Sprintf("def@%d def@%d", d, e))
 	}, opts)
 	r.Absorb("H_C07_def_def", st, "every ordered pair of definition slots, two symbolic names: redefinition in a visible scope must be rejected, anything else accepted")
 	// Harness C: placement of break / continue / return / func / a second function or parameter of the same name
@@ -275,6 +309,11 @@ func CheckC07(r *Run) int {
 		legal     bool
 	}{
 		{"duplicate-parameter", "func f(a int, a int) int {\n\treturn a\n}\nprint(f(1, 2))\n", false},
+		{"duplicate-parameter-other-type", "func f(a int, a string) int {\n\treturn 1\n}\nprint(f(1, \"s\"))\n", false},
+		{"duplicate-parameter-slice-type", "func f(v string, n int, v []string) int {\n\treturn n\n}\nprint(f(\"s\", 1, []string{}))\n", false},
+		{"call-through-alias-never-imported", "func helper() int {\n\treturn 1\n}\nprint(util.helper())\n", false},
+		{"call-through-alias-never-imported-in-function", "func Shout() int {\n\treturn 1\n}\nfunc w() int {\n\treturn lib.Shout()\n}\nprint(w())\n", false},
+		{"variable-through-alias-never-imported", "v := 1\nprint(m.v)\n", false},
 		{"duplicate-function", "func f() int {\n\treturn 1\n}\nfunc f() int {\n\treturn 2\n}\nprint(f())\n", false},
 		{"falls-off-end", "func f(a int) int {\n\tif a > 1 {\n\t\treturn 1\n\t}\n}\nprint(f(1))\n", false},
 		{"falls-off-end-empty", "func f() int {\n}\nprint(f())\n", false},
